@@ -311,7 +311,8 @@ fn run_phase<'a, C: Codec<'a>>(
                     "slices" => before.lens.iter().take(n).sum::<usize>(),
                     _ => n.min(before.stable),
                 };
-                let req = before.sb[..region_len].to_vec();
+                // (empty when the pre-state had dangling slices: their bytes are not read)
+                let req = before.sb.get(..region_len).unwrap_or(&[]).to_vec();
                 let mut got: Vec<u8> = Vec::new();
                 let r = guarded(|| match mode {
                     "slices" => c.consumer().consume(n),
